@@ -122,15 +122,86 @@ Definition ack_meaning (s s' : lstate) (a : ack) : Prop :=
   | _ => True
   end.
 
+(* what a later batch of the same step leaves in place: the log grows, the ISR keeps its members
+   and their offsets do not go back, the HW does not go back *)
+Definition later (s1 s2 : lstate) : Prop :=
+  (exists st, l_log s2 = l_log s1 ++ st) /\ l_min_isr s2 = l_min_isr s1 /\ length (l_isr s2) = length (l_isr s1) /\
+  (forall r o, In (r, o) (l_isr s2) -> exists o', In (r, o') (l_isr s1) /\ o' <= o) /\ l_hw s1 <= l_hw s2.
+
+Lemma set_offset_later r o isr : length (set_offset r o isr) = length isr /\
+  forall r' o', In (r', o') (set_offset r o isr) -> exists o0, In (r', o0) isr /\ o0 <= o'.
+Proof.
+  induction isr as [|[r0 o0] t [IH1 IH2]]; [split; [reflexivity|intros ? ? []]|]. cbn [set_offset]. destruct (N.eqb r0 r).
+  - split; [reflexivity|]. intros r' o' [[= <- <-]|H]; [exists o0; split; [left; reflexivity|lia]|exists o'; split; [right; exact H|lia]].
+  - split; [cbn [length]; rewrite IH1; reflexivity|]. intros r' o' [[= <- <-]|H]; [exists o0; split; [left; reflexivity|lia]|].
+    destruct (IH2 r' o' H) as (o1 & H1 & H2). exists o1. split; [right; exact H1|exact H2].
+Qed.
+
+Lemma store_batch_later s ms s' out : store_batch s ms = (s', out) -> later s s'.
+Proof.
+  assert (Hrefl : later s s) by (split; [exists []; rewrite app_nil_r; reflexivity|split; [reflexivity|split; [reflexivity|split; [intros r o H; exists o; split; [exact H|lia]|lia]]]]).
+  unfold store_batch. destruct ms as [|first rest]; [intros [= <- <-]; exact Hrefl|].
+  destruct (l_cc s && negb (pm_expected first =? -1) && negb (pm_expected first =? newest s + 1)); [intros [= <- <-]; exact Hrefl|].
+  unfold store_ok. match goal with |- (let '(s2, cacks) := commit ?S1 in _) = _ -> _ => set (s1 := S1) end.
+  destruct (commit s1) as [s2 cacks] eqn:Ec. intros [= <- <-]. destruct (commit_spec s1 s2 cacks Ec) as (Hl & Hi & Hm & Hh & _ & _).
+  destruct (set_offset_later 0%N (newest s + 1 + Z.of_nat (length (first :: rest)) - 1) (l_isr s)) as [L1 L2].
+  split; [exists (first :: rest); rewrite Hl; reflexivity|]. split; [rewrite Hm; reflexivity|]. split; [rewrite Hi; exact L1|].
+  split; [rewrite Hi; exact L2|]. unfold s1 in Hh. cbn [l_hw] in Hh. destruct (rf1 s && _) in Hh; lia.
+Qed.
+
+Lemma ack_meaning_later s0 s1 s2 a : ack_meaning s0 s1 a -> later s1 s2 -> ack_meaning s0 s2 a.
+Proof.
+  unfold ack_meaning. intros H ((st & Hl) & Hm & Hlen & Hisr & Hhw). destruct (ak_kind a); [|exact I|exact I]. destruct (ak_policy a).
+  - destruct H as [H1 H2]. split; [rewrite Hl; apply names_stored_grow; exact H1|exact H2].
+  - destruct H as (H1 & H2 & H3 & H4). split; [rewrite Hl; apply names_stored_grow; exact H1|]. split; [rewrite Hm, Hlen; exact H2|]. split; [|lia].
+    intros r o Hin. destruct (Hisr r o Hin) as (o' & Hin' & Hle). specialize (H3 r o' Hin'). lia.
+  - exact H.
+Qed.
+
+Lemma later_trans s1 s2 s3 : later s1 s2 -> later s2 s3 -> later s1 s3.
+Proof.
+  intros ((st1 & L1) & M1 & N1 & I1 & H1) ((st2 & L2) & M2 & N2 & I2 & H2).
+  split; [exists (st1 ++ st2); rewrite L2, L1, app_assoc; reflexivity|]. split; [congruence|]. split; [congruence|]. split; [|lia].
+  intros r o Hin. destruct (I2 r o Hin) as (o1 & Hin1 & Hle1). destruct (I1 r o1 Hin1) as (o0 & Hin0 & Hle0). exists o0. split; [exact Hin0|lia].
+Qed.
+
+Lemma ack_meaning_start s0 s1 s2 a : later s0 s1 -> ack_meaning s1 s2 a -> ack_meaning s0 s2 a.
+Proof.
+  unfold ack_meaning. intros ((st & Hl) & _) H. destruct (ak_kind a); [|exact I|exact I]. destruct (ak_policy a); [|exact H|exact H].
+  destruct H as [H1 H2]. split; [exact H1|]. rewrite Hl, app_length in H2. lia.
+Qed.
+
+Lemma store_each_spec ms : forall s s' out, QInv s -> store_each s ms = (s', out) ->
+  QInv s' /\ later s s' /\ (exists st, l_log s' = l_log s ++ st /\ forall m, In m st -> In m ms) /\ forall a, In a out -> ack_meaning s s' a.
+Proof.
+  induction ms as [|m r IH]; intros s s' out HQ H; cbn [store_each] in H.
+  - injection H as <- <-. split; [exact HQ|]. split; [split; [exists []; rewrite app_nil_r; reflexivity|split; [reflexivity|split; [reflexivity|split; [intros r o H; exists o; split; [exact H|lia]|lia]]]]|].
+    split; [exists []; rewrite app_nil_r; split; [reflexivity|intros ? []]|intros a []].
+  - destruct (store_batch s [m]) as [s1 a1] eqn:E1. destruct (store_each s1 r) as [s2 a2] eqn:E2. injection H as <- <-.
+    destruct (store_batch_spec s [m] s1 a1 HQ E1) as (HQ1 & (st1 & Hst1 & Hor) & Hacks1). pose proof (store_batch_later s [m] s1 a1 E1) as L1.
+    destruct (IH s1 s2 a2 HQ1 E2) as (HQ2 & L2 & (st2 & Hst2 & Hin2) & Hacks2).
+    split; [exact HQ2|]. split; [apply (later_trans s s1 s2 L1 L2)|]. split.
+    + exists (st1 ++ st2). split; [rewrite Hst2, Hst1, app_assoc; reflexivity|]. intros x Hx. apply in_app_or in Hx. destruct Hx as [Hx|Hx].
+      * destruct Hor as [->| ->]; [destruct Hx|destruct Hx as [<-|[]]; left; reflexivity].
+      * right. apply Hin2. exact Hx.
+    + intros a Ha. apply in_app_or in Ha. destruct Ha as [Ha|Ha].
+      * apply (ack_meaning_later s s1 s2 a); [|exact L2]. specialize (Hacks1 a Ha). unfold ack_meaning, batch_ack_ok in *. destruct (ak_kind a); [exact Hacks1|exact I|exact I].
+      * apply (ack_meaning_start s s1 s2 a L1). apply Hacks2. exact Ha.
+Qed.
+
 Theorem step_acks s x s' out : QInv s -> step s x = (s', out) ->
   QInv s' /\ (exists st, l_log s' = l_log s ++ st) /\ forall a, In a out -> ack_meaning s s' a.
 Proof.
   intros HQ H. destruct x as [ms|r o|r|r]; cbn [step] in H.
-  - destruct (store_batch s (filter (fun m => negb (pm_too_large m)) ms)) as [s1 acks] eqn:Es. injection H as <- <-.
-    destruct (store_batch_spec s _ s1 acks HQ Es) as (HQ1 & (st & Hst & _) & Hacks). split; [exact HQ1|]. split; [exists st; exact Hst|].
-    intros a Ha. apply in_app_or in Ha. destruct Ha as [Ha|Ha].
-    + apply in_map_iff in Ha. destruct Ha as (m & <- & _). exact I.
-    + specialize (Hacks a Ha). unfold ack_meaning, batch_ack_ok in *. destruct (ak_kind a); [exact Hacks|exact I|exact I].
+  - set (good := filter (fun m => negb (pm_too_large m)) ms) in *. destruct (l_cc s).
+    + destruct (store_each s good) as [s1 acks] eqn:Es. injection H as <- <-.
+      destruct (store_each_spec good s s1 acks HQ Es) as (HQ1 & _ & (st & Hst & _) & Hacks). split; [exact HQ1|]. split; [exists st; exact Hst|].
+      intros a Ha. apply in_app_or in Ha. destruct Ha as [Ha|Ha]; [apply in_map_iff in Ha; destruct Ha as (m & <- & _); exact I|apply Hacks; exact Ha].
+    + destruct (store_batch s good) as [s1 acks] eqn:Es. injection H as <- <-.
+      destruct (store_batch_spec s _ s1 acks HQ Es) as (HQ1 & (st & Hst & _) & Hacks). split; [exact HQ1|]. split; [exists st; exact Hst|].
+      intros a Ha. apply in_app_or in Ha. destruct Ha as [Ha|Ha].
+      * apply in_map_iff in Ha. destruct Ha as (m & <- & _). exact I.
+      * specialize (Hacks a Ha). unfold ack_meaning, batch_ack_ok in *. destruct (ak_kind a); [exact Hacks|exact I|exact I].
   - destruct (existsb (N.eqb r) (l_replicas s) && negb (N.eqb r 0)); [|injection H as <- <-; split; [exact HQ|split; [exists []; rewrite app_nil_r; reflexivity|intros a []]]].
     match type of H with commit ?S1 = _ => set (s1 := S1) in * end. assert (HQ1 : QInv s1) by exact HQ.
     destruct (commit_spec s1 s' out H) as (Hl & Hi & Hm & Hh & Hq & Hout). split; [apply (commit_qinv s1 s' out HQ1 H)|]. split; [exists []; rewrite app_nil_r; exact Hl|].
@@ -141,18 +212,26 @@ Proof.
   - destruct (existsb (N.eqb r) (map fst (l_isr s))); injection H as <- <-; (split; [exact HQ|split; [exists []; rewrite app_nil_r; reflexivity|intros a []]]).
 Qed.
 
-(* a negative acknowledgement: the message is not stored by this step *)
-Theorem step_nack_not_stored s ms s' out : QInv s -> step s (LPublish ms) = (s', out) ->
-  (exists st, l_log s' = l_log s ++ st /\ forall m, In m st -> In m ms /\ pm_too_large m = false) /\
-  (forall a, In a out -> ak_kind a = AIncorrectOffset -> l_log s' = l_log s).
+(* rejected messages are not stored: what a publish step appends are messages of the batch that
+   are not too large; and a batch refused for its expected offset leaves the log as it is (with
+   concurrency control every message is its own batch) *)
+Theorem step_stores_only_accepted s ms s' out : QInv s -> step s (LPublish ms) = (s', out) ->
+  exists st, l_log s' = l_log s ++ st /\ forall m, In m st -> In m ms /\ pm_too_large m = false.
 Proof.
-  intros HQ. cbn [step]. destruct (store_batch s (filter (fun m => negb (pm_too_large m)) ms)) as [s1 acks] eqn:Es. intros [= <- <-].
-  destruct (store_batch_spec s _ s1 acks HQ Es) as (_ & (st & Hst & Hor) & Hacks). split.
-  - exists st. split; [exact Hst|]. intros m Hm. destruct Hor as [->| ->]; [destruct Hm|]. apply filter_In in Hm. destruct Hm as [H1 H2].
-    split; [exact H1|]. destruct (pm_too_large m); [discriminate|reflexivity].
-  - intros a Ha Hk. apply in_app_or in Ha. destruct Ha as [Ha|Ha].
-    + apply in_map_iff in Ha. destruct Ha as (m & <- & _). discriminate.
-    + specialize (Hacks a Ha). unfold batch_ack_ok in Hacks. rewrite Hk in Hacks. exact Hacks.
+  intros HQ. cbn [step]. set (good := filter (fun m => negb (pm_too_large m)) ms).
+  assert (Hgood : forall m, In m good -> In m ms /\ pm_too_large m = false).
+  { intros m Hm. apply filter_In in Hm. destruct Hm as [H1 H2]. split; [exact H1|]. destruct (pm_too_large m); [discriminate|reflexivity]. }
+  destruct (l_cc s).
+  - destruct (store_each s good) as [s1 acks] eqn:Es. intros [= <- <-].
+    destruct (store_each_spec good s s1 acks HQ Es) as (_ & _ & (st & Hst & Hin) & _). exists st. split; [exact Hst|]. intros m Hm. apply Hgood. apply Hin. exact Hm.
+  - destruct (store_batch s good) as [s1 acks] eqn:Es. intros [= <- <-].
+    destruct (store_batch_spec s _ s1 acks HQ Es) as (_ & (st & Hst & Hor) & _). exists st. split; [exact Hst|]. intros m Hm. apply Hgood.
+    destruct Hor as [->| ->]; [destruct Hm|exact Hm].
+Qed.
+
+Theorem refused_batch_not_stored s ms s' out a : QInv s -> store_batch s ms = (s', out) -> In a out -> ak_kind a = AIncorrectOffset -> l_log s' = l_log s.
+Proof.
+  intros HQ H Ha Hk. destruct (store_batch_spec s ms s' out HQ H) as (_ & _ & Hacks). specialize (Hacks a Ha). unfold batch_ack_ok in Hacks. rewrite Hk in Hacks. exact Hacks.
 Qed.
 
 (* ---- whole histories ---- *)
